@@ -35,8 +35,16 @@ def rebuild(make, apply, ops, hist):
     return sysobj
 
 
+def _look(part, make, apply, ops, h1):
+    for op2 in ops:
+        sys2 = rebuild(make, apply, ops, h1)
+        if apply(sys2, op2, part, h1) is not False:
+            part.count("transitions")
+            part.count("lookahead_transitions")
+
+
 def _level_task(hists):
-    make, apply, ops, canon, describe, lookahead = _W["spec"]
+    make, apply, ops, canon, describe, lookahead, distrust = _W["spec"]
     part = Part()
     out = []
     for h in hists:
@@ -62,20 +70,19 @@ def _level_task(hists):
                 # canonical form does not see.  So, for short histories, every operation is executed and
                 # judged once more AFTER the self-loop (its successors are not added to the frontier).
                 if len(h) < lookahead:
-                    h1 = h + (oi,)
-                    for op2 in ops:
-                        sys2 = rebuild(make, apply, ops, h1)
-                        if apply(sys2, op2, part, h1) is not False:
-                            part.count("transitions")
-                            part.count("lookahead_transitions")
+                    _look(part, make, apply, ops, h + (oi,))
+            elif distrust is not None and len(h) < lookahead + 1 and distrust(op):
+                # operations named by the client (e.g. Clear()) lead to a state that may already be known;
+                # its successors are run and judged once more after THIS history all the same
+                _look(part, make, apply, ops, h + (oi,))
             out.append((k, h + (oi,)))
     return part, out
 
 
-def bfs(ctx, make, apply, ops, canon, max_depth, describe=None, determinism=48, lookahead=0):
+def bfs(ctx, make, apply, ops, canon, max_depth, describe=None, determinism=48, lookahead=0, distrust=None):
     """Returns dict(states, transitions, fixpoint, depth, deepest).
     lookahead=L: after every self-loop reached by a history shorter than L all operations are judged once more."""
-    _W["spec"] = (make, apply, ops, canon, describe, lookahead)
+    _W["spec"] = (make, apply, ops, canon, describe, lookahead, distrust)
     root = make()
     seen = {digest(canon(root))}
     frontier = [()]
